@@ -189,6 +189,7 @@ package workflow
 //
 // ---- the prepared workflow (representation invariant established by Prepare) ----
 //@ fields executableWorkflow immutable: logger config callableFunctions dag input stepRunData workflowContext internalDataModel runnableSteps lifecycles outputSchema
+//@ fields executableWorkflow immutable: others
 //@ fields DAGItem immutable: Kind StepID StageID OutputID OutputSchema Data DataSchema Provider
 //@ pure outputSchemaMap(e *executableWorkflow) map[string]*schema.StepOutputSchema = e.outputSchema
 //@ pred wfitem(it *DAGItem) = it != nil && allocated(it) && \
@@ -598,6 +599,7 @@ package workflow
 //
 // ---- Prepare: from the raw workflow to the prepared one ----
 //@ fields executor immutable: logger config stepRegistry callableFunctions callableFunctionSchemas
+//@ fields executor immutable: others
 //@ func (*executor).loadSchema
 //@   requires e != nil && stepKind != nil
 //@   site call LoadSchema#1 assert [a-provider-only-loads-step-data-that-passed-its-own-schema] called(Unserialize, 1) && callres(Unserialize, 1, 1) == nil && \
@@ -646,6 +648,11 @@ package workflow
 // compatible(...): the type structure of a provided field passes ValidateCompatibility of the stage's
 // property schema (the check itself - createTypeStructure and the SDK - is assumed, not verified).
 //@ pure compatible(root schema.Scope, field any, ps *schema.PropertySchema) bool
+// The type structure of a stage input is computed from its arguments alone; the function is under
+// contract for its access obligations (no process-global state: a memo shared between preparations
+// would make one workflow inherit the types of another).
+//@ func (*executor).createTypeStructure
+//@   requires e != nil && e.logger != nil
 //@ func (*executor).preValidateCompatibility
 //@   opt modular assumed
 //@   modifies nothing
